@@ -1033,6 +1033,9 @@ func (c *Ctx) specCall(env *SpecEnv, e *SExpr) Value {
 			s, ok := args[0].(SliceV)
 			if !ok || !s.Heap {
 				if ok && !s.Heap {
+					if c.replayFresh != nil && s.Obj != nil {
+						return BoolT(c.replayFresh[s.Obj])
+					}
 					return True()
 				}
 				specError("fresh() needs a slice")
